@@ -201,6 +201,34 @@ def run(ctx):
             ctx.ob('C04.13', f, 'cache-result:' + s.name, not bad,
                    '%s result is consumed by %s%s' % (s.name, ' > '.join(chain) or 'match / return', '' if not bad else ' — ' + verdict), line=s.line)
     ctx.floor('C04.13', 'cache-read calls inside the cache module', n13, 18)
+    # ---------------------------------------------------------------- C04.14
+    ctx.rule('C04.14', 'a scan answers with every frame it parsed, or says it is not the whole thread: in the cache module no shrinking operation (drain / truncate / retain / remove / '
+             'split_off / pop / clear / dedup) is applied to a Vec of parsed frames (rip_kernel::Event) on a path that goes on to build an answer whose `complete` flag is not the constant '
+             'false. A tail scan that drops everything before a seq gap and still forwards the reader\'s `complete` passes a suffix off as the whole stream, and its callers skip the truth replay.')
+    SHR = r'^alloc::vec::Vec::<T, A>::(drain|truncate|retain|retain_mut|remove|swap_remove|split_off|pop|clear|dedup|dedup_by|dedup_by_key)$|^alloc::collections::vec_deque::VecDeque::<T, A>::(drain|truncate|retain|remove|pop_front|pop_back|clear|split_off)$'
+    n14 = 0
+    for f in P.find_fns(r'^ripd::continuity_stream_cache::'):
+        aggs = [(bi, st) for (bi, si, st) in f.aggregates() if 'complete' in (st['rv'].get('fields') or [])]
+        if not aggs:
+            continue
+        n14 += 1
+        hits = []
+        for s_ in f.calls(SHR):
+            if not re.search(r'rip_kernel::Event\b', s_.full or ''):
+                continue
+            for (bi, st) in aggs:
+                if not (f.can_reach(s_.bb, bi) or s_.bb == bi):
+                    continue
+                op = st['rv']['a'][st['rv']['fields'].index('complete')]
+                k = op_const(op)
+                if k is not None and k.get('v') is False:
+                    continue
+                hits.append(s_)
+        ctx.ob('C04.14', f, 'parsed-frames-not-dropped', not hits,
+               'builds an answer with a `complete` flag; %s' % ('no parsed frame is dropped on the way' if not hits else
+               '%s on the parsed frames (line %s) precedes it and the flag is not forced to false: the answer claims completeness for a stream it cut' % (hits[0].name, hits[0].line)),
+               line=hits[0].line if hits else f.line)
+    ctx.floor('C04.14', 'cache functions that answer with a completeness flag', n14, 2)
     c0412(ctx)
     c044(ctx)
 
